@@ -4,7 +4,7 @@ func init() {
 	q := tierCfg{Runs: 1600, JobSize: 100, BudgetS: 150}
 	th := tierCfg{Runs: 64000, JobSize: 200, BudgetS: 1500}
 	props["C19"] = &propCfg{Engine: "nodesim", Test: "TestC19", Level: "fault_enumeration", Overlay: "pin",
-		Quick: tierCfg{Runs: 480, JobSize: 15, BudgetS: 150}, Thorough: tierCfg{Runs: 6400, JobSize: 40, BudgetS: 1700}}
+		Quick: tierCfg{Runs: 1920, JobSize: 30, BudgetS: 150}, Thorough: tierCfg{Runs: 9600, JobSize: 40, BudgetS: 1700}}
 	for _, id := range []string{"C10", "C11", "C12", "C13", "C14", "C15", "C16", "C17", "C18", "C38"} {
 		props[id] = &propCfg{Engine: "nodesim", Test: "Test" + id, Level: "exploration", Overlay: "pin", Quick: q, Thorough: th}
 	}
